@@ -155,6 +155,20 @@ static void prop_c01(Tape &t, Result &r) {
     return;
   }
   r.cls("ref:terminated");
+  // oracle self-check: for jump-free programs a second, structurally recursive interpreter must agree with the
+  // flat reference interpreter; a disagreement is a harness error (exit 2), never a violation
+  if (!c.feat.has_goto) {
+    ri::BigStep bs(c.prog);
+    if (bs.run()) {
+      std::string why;
+      if (!ri::same_state(in.stack, bs.stack, why)) {
+        r.harness_error = true;
+        r.msg = "the two reference interpreters disagree on a jump-free program: " + why;
+        return;
+      }
+      r.cls("oracle-self-check:agreed");
+    }
+  }
   long long budget = 40 * in.work + 4000;
   long long i = 0;
   for (; i < budget && !vm.isDone(); i++) vm.executeSingle();
